@@ -117,8 +117,155 @@ def loss_loads_on_rails():
     return s, {}
 
 
+def linreg_in_dropout_band():
+    """regulators whose input lies strictly between |vo| and |vo| + vdrop (the output follows the input at |Vin| - vdrop),
+    one behind a series resistance, one cascaded behind the first, one on a negative rail"""
+    s = System("sc9", C.Source("bat", vo=3.6, rs=0.15))
+    s.add_comp("bat", comp=C.RLoss("wire", rs=0.1))
+    s.add_comp("wire", comp=C.LinReg("ldo33", vo=3.3, vdrop=0.45, ig=2e-5))
+    s.add_comp("ldo33", comp=C.LinReg("ldo30", vo=3.0, vdrop=0.25, ig=1e-5))
+    s.add_comp("ldo30", comp=C.ILoad("mcu", ii=0.05))
+    s.add_comp("ldo33", comp=C.RLoad("pull", rs=330.0))
+    s.add_source(C.Source("neg", vo=-5.2))
+    s.add_comp("neg", comp=C.LinReg("nldo", vo=-5.0, vdrop=0.6, ig=1e-4))
+    s.add_comp("nldo", comp=C.PLoad("bias", pwr=0.1))
+    return s, {}
+
+
+def siblings_before_an_unselected_mux_input():
+    """a mux running from its first input whose SECOND input also feeds consumers that were added before the mux"""
+    s = System("sc10", C.Source("bat", vo=3.9, rs=0.1))
+    s.add_source(C.Source("usb", vo=5.0, rs=0.2))
+    s.add_comp("usb", comp=C.ILoad("led", ii=0.02))
+    s.add_comp("usb", comp=C.Converter("chg", vo=4.2, eff=0.88))
+    s.add_comp("chg", comp=C.PLoad("cell", pwr=1.5))
+    s.add_comp(["bat", "usb"], comp=C.PMux("mux", rs=[0.05, 0.08], ig=1e-6))
+    s.add_comp("mux", comp=C.ILoad("sys", ii=0.1))
+    s.add_comp("usb", comp=C.RLoad("hub", rs=50.0))
+    return s, {}
+
+
 ALL = [dead_branch_added_last, mux_second_input_tables, starved_regulator_before_mux, signed_phase_current_behind_series,
-       negative_rail_tables, mux_changes_source_between_phases, light_branch_next_to_heavy, loss_loads_on_rails]
+       negative_rail_tables, mux_changes_source_between_phases, light_branch_next_to_heavy, loss_loads_on_rails,
+       linreg_in_dropout_band, siblings_before_an_unselected_mux_input]
+
+
+# ---------------------------------------------------------------------------------------------
+# Systems left behind by an edit HISTORY (analysed in between): every report of such a system is judged like that of any
+# other system - against its projected state (solve family), against a freshly built twin (C16), against its reloaded
+# copy (C12), as a diagram (C19).
+def _quiet_solve(s):
+    try:
+        s.solve()
+        s.phases()
+    except Exception:
+        pass
+
+
+def h_mux_first_input_relinked():
+    """the component feeding the FIRST mux input is removed with its children kept: the mux keeps its priority order with
+    the removed component's parent in first place"""
+    s = System("h1", C.Source("A", vo=12.0, rs=0.05))
+    s.add_source(C.Source("B", vo=9.0, rs=0.1))
+    s.add_comp("A", comp=C.Converter("c1", vo=5.0, eff=0.9))
+    s.add_comp("B", comp=C.PSwitch("sw1", rs=0.1))
+    s.add_comp(["c1", "sw1"], comp=C.PMux("mux", rs=[0.05, 0.2]))
+    s.add_comp("mux", comp=C.ILoad("load", ii=0.2))
+    _quiet_solve(s)
+    s.del_comp("c1", del_childs=False)
+    return s, {}
+
+
+def h_mux_middle_input_relinked():
+    """three inputs, the middle one is re-linked; the first is a 0 V source so that the order decides the supply"""
+    s = System("h2", C.Source("dead", vo=0.0))
+    s.add_source(C.Source("A", vo=12.0, rs=0.05))
+    s.add_source(C.Source("B", vo=9.0, rs=0.1))
+    s.add_comp("A", comp=C.RLoss("ra", rs=0.2))
+    s.add_comp(["dead", "ra", "B"], comp=C.PMux("mux", rs=[0.3, 0.05, 0.2]))
+    s.add_comp("mux", comp=C.PLoad("load", pwr=1.0))
+    _quiet_solve(s)
+    s.del_comp("ra", del_childs=False)
+    return s, {}
+
+
+def h_source_renamed_after_solve():
+    """two sources and a mux; after an analysis the source that feeds the active mux input gets another name"""
+    s = System("h3", C.Source("usb", vo=5.0, rs=0.2))
+    s.add_source(C.Source("bat", vo=3.9, rs=0.1))
+    s.add_comp("usb", comp=C.RLoss("filt", rs=0.5))
+    s.add_comp(["filt", "bat"], comp=C.PMux("mux", rs=[0.1, 0.2]))
+    s.add_comp("mux", comp=C.LinReg("ldo", vo=3.0, vdrop=0.2, ig=1e-5))
+    s.add_comp("ldo", comp=C.ILoad("mcu", ii=0.08))
+    s.add_comp("bat", comp=C.PLoad("rtc", pwr=0.01))
+    _quiet_solve(s)
+    s.change_comp("usb", comp=C.Source("wall", vo=5.0, rs=0.2))
+    return s, {}
+
+
+def h_phase_configured_component_replaced_after_solve():
+    """a converter that sleeps in one phase and a load with a phase table are replaced (change_comp) after an analysis and
+    not configured again: both now behave as without phases"""
+    s = System("h4", C.Source("src", vo=12.0, rs=0.1))
+    s.add_comp("src", comp=C.Converter("buck", vo=5.0, eff=0.9, iis=1e-5))
+    s.add_comp("buck", comp=C.ILoad("mcu", ii=0.1, iis=1e-4))
+    s.add_comp("src", comp=C.PLoad("fan", pwr=1.0, pwrs=0.01))
+    s.set_sys_phases({"run": 10.0, "sleep": 50.0})
+    s.set_comp_phases("buck", ["run"])
+    s.set_comp_phases("mcu", {"run": 0.2})
+    s.set_comp_phases("fan", {"run": 2.0, "sleep": 0.0})
+    _quiet_solve(s)
+    s.change_comp("buck", comp=C.Converter("buck", vo=5.0, eff=0.9, iis=1e-5))
+    s.change_comp("mcu", comp=C.ILoad("mcu2", ii=0.1, iis=1e-4))
+    return s, {"energy": True}
+
+
+def h_freed_index_reused_below_later_node():
+    """an early component is deleted, a new one is added below a later node (it takes the freed index), the old name is
+    re-used elsewhere"""
+    s = System("h5", C.Source("src", vo=24.0), rail="V24")
+    s.add_comp("V24", comp=C.Converter("c12", vo=12.0, eff=0.9), rail="V12")
+    s.add_comp("V12", comp=C.PLoad("a", pwr=1.0), group="g1")
+    s.add_comp("V24", comp=C.LinReg("l5", vo=5.0, vdrop=0.3), rail="V5")
+    s.add_comp("V5", comp=C.ILoad("b", ii=0.1), group="g2")
+    _quiet_solve(s)
+    s.del_comp("c12", del_childs=True)
+    s.add_comp("V5", comp=C.PSwitch("sw", rs=0.1), rail="VSW", group="g1")
+    s.add_comp("VSW", comp=C.RLoad("a", rs=100.0), group="g2")
+    s.add_comp("V24", comp=C.Converter("c12", vo=3.3, eff=0.8), rail="V12")
+    s.add_comp("V12", comp=C.PLoad("c", pwr=0.2))
+    return s, {}
+
+
+def h_rail_moved_to_another_component():
+    """a mux input declared by its rail is re-railed, and the freed rail name is given to the OTHER input's feeder"""
+    s = System("h6", C.Source("bat", vo=3.9, rs=0.1), rail="VBAT")
+    s.add_source(C.Source("usb", vo=5.0, rs=0.2), rail="VUSB")
+    s.add_comp("VUSB", comp=C.RLoss("filt", rs=0.5), rail="VF")
+    s.add_comp(["VF", "VBAT"], comp=C.PMux("mux", rs=[0.1, 0.2]), rail="SYS")
+    s.add_comp("SYS", comp=C.ILoad("mcu", ii=0.08))
+    _quiet_solve(s)
+    s.change_comp("filt", comp=C.RLoss("filt", rs=0.5), rail="VF2")
+    s.change_comp("bat", comp=C.Source("bat", vo=3.9, rs=0.1), rail="VF")
+    return s, {}
+
+
+HISTORIES = [h_mux_first_input_relinked, h_mux_middle_input_relinked, h_source_renamed_after_solve,
+             h_phase_configured_component_replaced_after_solve, h_freed_index_reused_below_later_node,
+             h_rail_moved_to_another_component]
+
+
+def build_histories():
+    out = []
+    with warnings.catch_warnings():
+        warnings.simplefilter("ignore")
+        for f in HISTORIES:
+            try:
+                s, kw = f()
+                out.append((f.__name__, s, kw))
+            except Exception as e:
+                out.append((f.__name__, e, {}))
+    return out
 
 
 def build_all():
